@@ -141,6 +141,8 @@ def rule_serialize(ctx):
         for pa in paths:
             ts = [e for e in pa.events if e.kind == "call" and is_call(e.data["term"], method="to_string")]
             tasks = pa.calls(method="create_task")
+            if pa.outcome == "return" and not tasks and any(isinstance(e.data["callee"], Fn) and e.data["callee"].fi.name == "close" and show(e.data["callee"].self_val) == "self" for e in pa.calls(method="close")):
+                continue  # the connection is torn down instead of being written to: nothing to order
             if pa.outcome != "return" or len(tasks) != 1 or len(ts) != 1:
                 ctx.violated("C19.SERIALIZE", entry.short, f"{len(ts)} serialisations / {len(tasks)} tasks per routed message (expected 1/1)", fi=entry, text=f"counts:{len(ts)}:{len(tasks)}")
                 bad = True
